@@ -6,6 +6,9 @@ args = sys.argv[1:]
 prefix, offset = '/tmp/seed_', 0
 if '--from' in args:
     i = args.index('--from'); prefix = args[i + 1]; del args[i:i + 2]
+boffset = 0
+if '--benign-offset' in args:
+    i = args.index('--benign-offset'); boffset = int(args[i + 1]); del args[i:i + 2]
 if '--offset' in args:
     i = args.index('--offset'); offset = int(args[i + 1]); del args[i:i + 2]
 for pid in args:
@@ -36,7 +39,7 @@ for pid in args:
         diff, demo, meta = [os.path.join(d, n % k) for n in ('benign%d.diff', 'benigndemo%d.py', 'benign%d.json')]
         if not (os.path.exists(diff) and os.path.exists(demo) and os.path.exists(meta)):
             continue
-        dst = os.path.join(VERIF, 'seeded', 'benign', '%s-%d' % (pid, k))
+        dst = os.path.join(VERIF, 'seeded', 'benign', '%s-%d' % (pid, k + boffset))
         os.makedirs(dst, exist_ok=True)
         shutil.copy(diff, os.path.join(dst, 'patch.diff'))
         text = open(demo).read()
